@@ -216,6 +216,14 @@ def c17b_value(ctx, tu):
 
 def c17c(ctx, tu):
     for fn in tu.find(AG + "::trace_exception"):
+        if fn.rec.get("params"):
+            # the dispatch function classifies (a handler per kind, C17.b.exc) and hands the caught std::exception
+            # in: this recorder must note its what()
+            ok = "std::exception" in fn.rec["params"][0]["t"] and \
+                any(e["e"] == "call" and qe(e) == "std::exception::what" for b, e in fn.events())
+            ctx.ob("C17.c", AG + "::trace_exception", ok, pattern=fn.pat, unit=tu.name,
+                   detail="" if ok else "the recorder for a caught std::exception must note its what()")
+            continue
         tries = [b for b in fn.rec["blocks"] if b.get("term", {}).get("kind") == "try"]
         ok = len(tries) == 1
         if ok:
